@@ -39,7 +39,9 @@ RULE = ("flat classes (1..5 fields: Integer/Number/Float incl. sign variants, St
         "_deserialization_mapper, TO_LOWERCASE, TO_CAMELCASE, Deserializer/deserialize_structure(mapper=), "
         "camel_case_convert) on classes of collections / Enum / scalars (modelled: docOfMapped) and AnyOf / nested "
         "(oracle only), two-word snake_case field names, document written under the document keys; "
-        "formerly: "
+        "each judged call also after an earlier deserialization of the SAME class object under the other setting of "
+        "camel_case_convert / mapper override / keep_undefined / fail-fast (valid document); an invalid input that "
+        "raises nothing is a failure (invalid-input-accepted); formerly: "
         "shared instances and unhashable elements with p~0.3. Compared: phase one of deserialization "
         "(Lean `phaseOneInvalid` vs the real deserialize_single_field, field by field; Lean `p1Sites` — exception class, "
         "count/order, and the text every message must begin with given the OBSERVED scratch `_name`s of the inner Field "
